@@ -375,9 +375,13 @@ def run(ctx, ck):
 
     positions = {}
 
-    def helper_codes(g_):
-        """the values a helper can hand back as its exit code (constants), None if one is not a constant"""
+    def helper_codes(g_, ints_only=False, depth=0):
+        """the values a helper can hand back as its exit code (constants), None if one is not a constant.
+        ints_only: main hands the value on only when it is an int (`if isinstance(x, int): return x`), so results
+        that are built objects / tuples / lists are not exit codes; a local that holds the code of another entry
+        helper stands for that helper's codes"""
         out = []
+        gfl_ = ctx.flow(g_)
         for x_ in walk_no_nested(g_.node):
             if isinstance(x_, ast.Return) and x_.value is not None:
                 v_ = x_.value
@@ -386,16 +390,67 @@ def run(ctx, ck):
                     if not (isinstance(v_, ast.Tuple) and len(pos_) == 1 and max(pos_) < len(v_.elts)):
                         return None
                     v_ = v_.elts[next(iter(pos_))]
+                if isinstance(v_, ast.Name) and depth < 3 and v_.id in gfl_.rd.names:
+                    ds_ = gfl_.def_exprs(v_.id, gfl_.node_id_of(x_))
+                    subs_ = []
+                    for d_ in ds_:
+                        if d_[0] == 'assign' and isinstance(d_[1], ast.Call) and isinstance(d_[1].func, ast.Name):
+                            q2_ = '%s.%s' % (g_.module.name, d_[1].func.id)
+                            if q2_ in ea.entry_helpers() and q2_ != g_.qual:
+                                subs_.append(m.funcs[q2_])
+                                continue
+                        if d_[0] == 'assign' and isinstance(d_[1], ast.Constant):
+                            out.append(d_[1].value)
+                            continue
+                        subs_ = None
+                        break
+                    if subs_ is not None:
+                        for h_ in subs_:
+                            c2_ = helper_codes(h_, ints_only or int_guarded(x_, v_.id, g_.node), depth + 1)
+                            if c2_ is None:
+                                return None
+                            out += c2_
+                        continue
                 if not isinstance(v_, ast.Constant):
+                    def not_int(e_, at_, d_=0):
+                        if isinstance(e_, (ast.Tuple, ast.List, ast.Dict, ast.ListComp, ast.DictComp, ast.Set)):
+                            return True
+                        if isinstance(e_, ast.Constant):
+                            return e_.value is None
+                        if isinstance(e_, ast.Call):
+                            nm_ = (dotted(e_.func) or '').split('.')[-1]
+                            return nm_ in m.classes or nm_ in ('list', 'dict', 'tuple', 'set', 'sorted')
+                        if isinstance(e_, ast.BoolOp):
+                            return all(not_int(x__, at_, d_ + 1) for x__ in e_.values)
+                        if isinstance(e_, ast.Name) and d_ < 3 and e_.id in gfl_.rd.names:
+                            dd_ = gfl_.def_exprs(e_.id, at_)
+                            dd_ = [y_ for y_ in dd_ if y_[0] != 'weak']      # (x.append(..) keeps x what it is)
+                            return bool(dd_) and all(y_[0] == 'assign' and not_int(y_[1], y_[2], d_ + 1) for y_ in dd_)
+                        return False
+                    if ints_only and not_int(v_, gfl_.node_id_of(x_)):
+                        continue
                     return None
                 out.append(v_.value)
         return out
 
-    def helper_reports(g_):
+    def int_guarded(r_, name_, root_=None):
+        """the return sits under `if isinstance(<name>, int):`"""
+        root_ = root_ or mainf.node
+        p_ = parent(r_)
+        while p_ is not None and p_ is not root_:
+            if isinstance(p_, ast.If) and any(r_ is s_ or any(r_ is y_ for y_ in ast.walk(s_)) for s_ in p_.body):
+                t_ = p_.test
+                if isinstance(t_, ast.Call) and isinstance(t_.func, ast.Name) and t_.func.id == 'isinstance' and \
+                        len(t_.args) == 2 and norm(t_.args[0]) == name_ and norm(t_.args[1]) == 'int':
+                    return True
+            p_ = parent(p_)
+        return False
+
+    def helper_reports(g_, lenient=False):
         """every failing return of the helper (a constant other than a normal result) follows a diagnostic print"""
         for r_ in walk_no_nested(g_.node):
             if isinstance(r_, ast.Return) and (r_.value is None or isinstance(r_.value, ast.Constant)):
-                if r_.value is not None and r_.value.value not in (None, 23) and g_.qual not in positions:
+                if r_.value is not None and r_.value.value not in (None, 23, 0) and g_.qual not in positions:
                     return False
         return any(isinstance(c_, ast.Call) and isinstance(c_.func, ast.Name) and c_.func.id == 'print'
                    for c_ in walk_no_nested(g_.node))
@@ -406,9 +461,10 @@ def run(ctx, ck):
         if not ok and isinstance(v, ast.Name):
             # `rc = helper(...); if rc is not None: return rc`: the helper's own exit code
             g_ = helper_result(v, mfl_.node_id_of(r))
-            codes_ = helper_codes(g_) if g_ is not None else None
-            ok = g_ is not None and helper_reports(g_) and codes_ is not None and all(
-                c_ in (None, 23) or (c_ == 0 and c_ is not False and g_.qual in positions) for c_ in codes_)
+            ig_ = int_guarded(r, v.id)
+            codes_ = helper_codes(g_, ints_only=ig_) if g_ is not None else None
+            ok = g_ is not None and helper_reports(g_, lenient=ig_) and codes_ is not None and all(
+                c_ in (None, 23) or (c_ == 0 and c_ is not False) for c_ in codes_)
             if ok:
                 continue
         if not ok:
@@ -450,6 +506,36 @@ def run(ctx, ck):
               'UnboundLocalError on that path' % name)
     ck.ob('R-DEFASSIGN.main', 'main|locals', True, mainf.loc(),
           '%d locals of main analysed with correlated-guard path feasibility' % len(fl.rd.names))
+    # a degenerate wire is refused with a diagnostic wherever it can arise: every operation that moves the end points
+    # of a wire re-runs the zero-length validation (its ValueError is what main turns into "Invalid geo-scale option")
+    ck.rule('R-VALID.revalidate', 'every Wire method that changes p1 / p2 reaches the zero-length validation')
+    from ..rules import self_closure
+    V_ = {g_.qual for g_ in m.all_funcs() for x_ in walk_no_nested(g_.node)
+          if isinstance(x_, ast.Raise) and x_.exc is not None and any(
+              isinstance(c_, ast.Constant) and isinstance(c_.value, str) and 'zero length' in c_.value.lower()
+              for c_ in ast.walk(x_.exc))}
+    if not V_:
+        raise AnalysisError('anchor vanished: no function raises the "Zero length wire" error')
+    n_rv = 0
+    wire_ = m.classes.get('Wire')
+    if wire_ is None:
+        raise AnalysisError('anchor vanished: class Wire')
+    for g_ in sorted(wire_.methods.values(), key=lambda x: x.qual):
+        if g_.name.startswith('_') and g_.name != '__init__':
+            continue        # (helpers are judged through the public methods that use them)
+        cl_ = self_closure(ctx, g_)
+        moves_ = any((isinstance(x_, ast.Attribute) and isinstance(x_.ctx, ast.Store) and x_.attr in ('p1', 'p2') and norm(x_.value) == 'self')
+                     or (isinstance(x_, ast.Subscript) and isinstance(x_.ctx, ast.Store) and norm(x_.value) in ('self.p1', 'self.p2'))
+                     for h_ in cl_ for x_ in walk_no_nested(h_.node))
+        if not moves_ or g_.name in ('rotate', 'translate'):
+            continue        # (rigid motions keep the length)
+        n_rv += 1
+        ok_ = any(h_.qual in V_ for h_ in cl_)
+        ck.ob('R-VALID.revalidate', g_.qual, ok_, g_.loc(),
+              're-validates the wire after moving its ends' if ok_ else
+              '%s changes the end points without reaching the zero-length validation (%s): a wire collapsed by the '
+              'operation (scale factor 0) goes on into segmentation and ends in an uncaught exception' % (g_.qual, sorted(V_)))
+    ck.floor('Wire methods that can change the length of the wire', n_rv, 3)
     ck.undecided += ['implicit exceptions of numeric origin (ZeroDivisionError, LinAlgError, overflow)',
                      'NaN / infinity in the output', 'None-valued options reaching arithmetic '
                      '(--radial-count without --radial-radius)']
